@@ -27,7 +27,7 @@ type c19Case struct {
 	PreCache  bool     `json:"precache"`  // a .spok cache from an earlier run exists
 }
 
-var c19Classes = []string{"valid", "valid-no-tasks", "syntax-error", "duplicate-task", "unknown-builtin", "failing-exec", "absent", "directory", "ident-rhs"}
+var c19Classes = []string{"valid", "valid-no-tasks", "syntax-error", "duplicate-task", "unknown-builtin", "failing-exec", "absent", "directory", "ident-rhs", "symlink", "dangling-symlink"}
 
 func c19Text(class string, messy bool) (string, bool) {
 	valid := "# Project\nNAME := \"proj\"\n\n# Builds\ntask t(\"a.txt\", \"sub/*.txt\") {\n    echo building {{.NAME}}\n}\n\n# Other\ntask u(t) {\n    echo done\n}\n\n"
@@ -50,6 +50,8 @@ func c19Text(class string, messy bool) (string, bool) {
 		return "X := exec(\"exit 3\")\n" + valid, false
 	case "ident-rhs":
 		return "X := NAME\n" + valid, false // parses, but does not load
+	case "symlink":
+		return valid, true
 	}
 	return "", false
 }
@@ -62,7 +64,7 @@ func c19Cases(tier string) []c19Case {
 			for _, nested := range []bool{false, true} {
 				for _, gi := range []bool{false, true} {
 					for _, pre := range []bool{false, true} {
-						if pre && (cl == "absent" || cl == "directory") {
+						if pre && (cl == "absent" || cl == "directory" || cl == "dangling-symlink") {
 							continue
 						}
 						for _, messy := range []bool{false, true} {
@@ -103,6 +105,15 @@ func c19Run(root string, c c19Case) (obs []c19Obs, outcome string) {
 	case "directory":
 		t.Mkdir("home/w/proj/spokfile")
 		t.File("home/w/proj/spokfile/inner.txt", "x\n")
+	case "symlink":
+		// the project's spokfile is a link to one shared between projects
+		vt, _ := c19Text("valid", false)
+		t.File("home/shared/spokfile", vt)
+		os.Symlink(filepath.Join(root, "home/shared/spokfile"), filepath.Join(proj, "spokfile"))
+		os.Lchown(filepath.Join(proj, "spokfile"), 65534, 65534)
+	case "dangling-symlink":
+		os.Symlink(filepath.Join(root, "home/shared/nowhere"), filepath.Join(proj, "spokfile"))
+		os.Lchown(filepath.Join(proj, "spokfile"), 65534, 65534)
 	default:
 		t.File("home/w/proj/spokfile", text)
 	}
@@ -116,6 +127,7 @@ func c19Run(root string, c c19Case) (obs []c19Obs, outcome string) {
 		cwd = filepath.Join(proj, "nest", "deeper")
 		cwdRel = "home/w/proj/nest/deeper"
 	}
+	linkClass := c.Class == "symlink" || c.Class == "dangling-symlink"
 	oldIgnore := ""
 	if c.GitIgnore {
 		oldIgnore = "node_modules/\n*.log"
@@ -135,6 +147,9 @@ func c19Run(root string, c c19Case) (obs []c19Obs, outcome string) {
 	allowed := func(p string) bool {
 		if isInit {
 			// --init happens before any spokfile is looked for: only cwd/spokfile (new) and cwd/.gitignore
+			return false
+		}
+		if c.Class == "dangling-symlink" {
 			return false
 		}
 		return c.Class != "absent" && c.Class != "directory" && (p == spokDir || strings.HasPrefix(p, spokDir+"/"))
@@ -160,6 +175,8 @@ func c19Run(root string, c c19Case) (obs []c19Obs, outcome string) {
 		case p == "home/w/proj" || (isInit && p == cwdRel):
 			// directory entry itself (mode unchanged is part of Entry; mtime is not compared)
 			obs = append(obs, c19Obs{"path-changed", fmt.Sprintf("directory %s changed mode", p)})
+		case isFmt && c.Class == "symlink" && p == "home/shared/spokfile":
+			// formatting through the link rewrites the file it points to
 		case isFmt && p == "home/w/proj/spokfile":
 			if !loads {
 				obs = append(obs, c19Obs{"fmt-rewrote-invalid-spokfile", fmt.Sprintf("--fmt rewrote a spokfile of class %s (exit %d)", c.Class, o.Exit)})
@@ -176,6 +193,7 @@ func c19Run(root string, c c19Case) (obs []c19Obs, outcome string) {
 	// --init must refuse when cwd already has a spokfile, and must create one otherwise
 	if isInit {
 		_, existed := before[cwdRel+"/spokfile"]
+		_ = linkClass
 		if existed && o.Exit == 0 {
 			obs = append(obs, c19Obs{"init-did-not-refuse", "a spokfile already exists in the working directory but --init exited 0"})
 		}
